@@ -567,7 +567,10 @@ def just(
         unparsed.ljust(width, fill_char) if ljust else unparsed.rjust(width, fill_char)
     )
 
-    assert crop or len(unparsed_output) == width
+    if not crop and len(unparsed_output) != width:
+        # The input is longer than `width` and may not be cropped:
+        # the predicate cannot be established.
+        return SemPredEvalResult(False)
 
     if crop:
         unparsed_output = (
